@@ -158,11 +158,13 @@ def parse (r : Role) (buf : Bytes) : Option PMap :=
 
 /-- `ServerParameters::is_0rtt_accepted(&self = remembered, new)`; `none` = `unreachable!` (a stored value of
 the wrong type). -/
+def zrttStep (old new : PMap) (acc : Option Bool) (id : Nat) : Option Bool :=
+  match acc, getVarint old id, getVarint new id with
+  | some a, some o, some n => some (a && decide (o ≤ n))
+  | _, _, _ => none
+
 def zeroRttAccepted (old new : PMap) : Option Bool :=
-  zeroRttIds.foldl (fun acc id =>
-    match acc, getVarint old id, getVarint new id with
-    | some a, some o, some n => some (a && decide (o ≤ n))
-    | _, _, _ => none) (some true)
+  zeroRttIds.foldl (zrttStep old new) (some true)
 
 /-! ## idle timeout -/
 
